@@ -179,6 +179,24 @@ Proof.
     apply kdiv_cancel. now apply Hd. }
   intros i j Hi Hj. unfold pre. rewrite E by assumption. now apply Rx.
 Qed.
+(* the restoration is linear in B (real scalars), given that the inverse transform and the division are *)
+Hypothesis Fi_add : forall s t, Fi (rmadd s t) =w rmadd (Fi s) (Fi t).
+Hypothesis Fi_scale : forall c s, Fi (rmscale c s) =w rmscale c (Fi s).
+Hypothesis kdiv_add : forall a b d, kdiv (a + b) d = kdiv a d + kdiv b d.
+Hypothesis kdiv_scale : forall c a d, kdiv (c * a) d = c * kdiv a d.
+Theorem tik_restore_linear h B1 B2 c lam : kre c = c ->
+  tik_restore h (rmadd (rmscale c B1) B2) lam =w rmadd (rmscale c (tik_restore h B1 lam)) (tik_restore h B2 lam).
+Proof.
+  intros Rc i j Hi Hj. unfold tik_restore, pre, rmadd, rmscale.
+  assert (E : tik_spectrum h (fun i j => c * B1 i j + B2 i j) lam =w rmadd (rmscale c (tik_spectrum h B1 lam)) (tik_spectrum h B2 lam)).
+  { intros u v Hu Hv. unfold tik_spectrum, rmadd, rmscale.
+    pose proof (F_add (rmscale c B1) B2 u v Hu Hv) as P. unfold rmadd, rmscale in P. rewrite P.
+    pose proof (F_scale c B1 u v Hu Hv) as P2. unfold rmscale in P2. rewrite P2.
+    replace (kconj (F h u v) * (c * F B1 u v + F B2 u v)) with (c * (kconj (F h u v) * F B1 u v) + kconj (F h u v) * F B2 u v) by ring.
+    now rewrite kdiv_add, kdiv_scale. }
+  rewrite (Fi_w _ _ E i j Hi Hj), (Fi_add _ _ i j Hi Hj). unfold rmadd. rewrite (Fi_scale _ _ i j Hi Hj). unfold rmscale.
+  rewrite kre_add, (kre_scale c _ Rc). reflexivity.
+Qed.
 End Filter.
 
 (* ------------------------------------------------------------------------------------------------
